@@ -26,7 +26,7 @@ ASSUMPTIONS = [
 SHARDS = {'quick': 8, 'thorough': 16}
 BUDGET_S = {'quick': 45, 'thorough': 480}
 N_PROGRAMS = {'quick': 4000, 'thorough': 120000}
-MIN_OBS = {'law': {'quick': 40000, 'thorough': 1000000}}
+MIN_OBS = {'law': {'quick': 10000, 'thorough': 200000}}
 
 SINGLE_OPS = ['@', '.', ',', ':', ';', '=', '+', '*', '/', '%', '&', '|', '^', '~', '<', '>']
 COMBINED_OPS = ['-=', '+=', '*=', '/=', '%=', '&=', '|=', '^=', '==', '!=', '<=', '>=', '<<', '>>', '->', '**', ':=', '...']
